@@ -39,6 +39,11 @@ TOKEN_RULES = [
     (r'\b0\b(?![.\d])', '1'), (r'(?<![.\d])\b1\b(?![.\d])', '0'), (r'(?<![.\d])\b1\b(?![.\d])', '2'),
     (r'\btrue\b', 'false'), (r'\bfalse\b', 'true'),
 ]
+# numeric literals other than 0 and 1: an integer n becomes n + 1, a floating literal is scaled by 10 (1e-6 -> 1e-5, 0.1 -> 1.0, 100. -> 1000.)
+CONST_RULES = [
+    (r'(?<![\w.])([2-9]|[1-9]\d+)(?![\w.])', lambda m: str(int(m.group(1)) + 1)),
+    (r'(?<![\w.])(\d+\.\d*(?:[eE][-+]?\d+)?|\d+[eE][-+]?\d+|\.\d+)(?![\w])', lambda m: repr(float(m.group(1)) * 10)),
+]
 
 
 def sh(cmd, timeout=None, env=None):
@@ -92,6 +97,12 @@ def enumerate_mutants():
                 for m in re.finditer(pat, code):
                     new = code[:m.start()] + rep + code[m.end():]
                     muts.append({'file': rel, 'line': n + 1, 'op': '%s -> %s' % (pat.replace('\\', ''), rep), 'old': line, 'new': new + tail})
+            for pat, fn in CONST_RULES:
+                for m in re.finditer(pat, code):
+                    if 'std::get<' in code[max(0, m.start() - 9):m.start()]:
+                        continue
+                    new = code[:m.start()] + fn(m) + code[m.end():]
+                    muts.append({'file': rel, 'line': n + 1, 'op': 'constant %s -> %s' % (m.group(0), fn(m)), 'old': line, 'new': new + tail})
             for m in re.finditer(r'\b[A-Za-z_]\w*\b', code):
                 w = m.group(0)
                 if w in SWAPS and not code.strip().startswith(('for (', 'while (')):     # (a swapped loop counter only makes the loop endless)
@@ -170,10 +181,11 @@ def main():
     out_dir, shard = sys.argv[2], sys.argv[3]
     i, n = [int(x) for x in shard.split('/')]
     sample = int(sys.argv[4]) if len(sys.argv) > 4 else 240
-    muts = sorted(enumerate_mutants(), key=lambda m: hashlib.sha1(('s' + m['id']).encode()).hexdigest())[:sample]
+    only = os.environ.get('MUTSWEEP_ONLY', '')            # e.g. `constant`: only the mutants whose operator starts with this word
+    muts = sorted([m for m in enumerate_mutants() if m['op'].startswith(only)], key=lambda m: hashlib.sha1(('s' + m['id']).encode()).hexdigest())[:sample]
     mine = [m for k, m in enumerate(muts) if k % n == i]
     os.makedirs(out_dir, exist_ok=True)
-    log = os.path.join(out_dir, 'worker%d.jsonl' % i)
+    log = os.path.join(out_dir, 'worker%s%d.jsonl' % (only, i))
     done = set()
     for f in os.listdir(out_dir):
         if f.endswith('.jsonl'):
@@ -184,7 +196,7 @@ def main():
             continue
         if os.path.exists(os.path.join(out_dir, 'stop')):
             break
-        tag = 'w%d' % i
+        tag = 'w%s%d' % (only, i)
         wt = '/tmp/ms_wt_%s' % tag
         sh('git -C /repo worktree remove --force %s' % wt)
         shutil.rmtree(wt, ignore_errors=True)
